@@ -5,6 +5,7 @@ from .. import memrun, runmodel
 from ..clock import CLOCK
 from ..pyparams import enc_params, mk_params, params_term
 from . import _mem, _redis
+from . import _rabbit
 
 S = memrun.S
 RULE = ("histories over one queue with normal (plain and topic-filtered), delayed- and dead-category consumers: messages with "
@@ -120,6 +121,7 @@ def run(ctx: Ctx) -> Result:
                 res.failures.append(Failure(kind, what, {"history": _mem.strip(h), "where": where}, None))
     sched_cases(ctx, res, rng)
     _redis.run_seq(ctx, res, "c12r", {"C12"}, "ttl", 150, 3000, rng)
+    _rabbit.run_seq(ctx, res, "c12q", {"C12"}, "ttl", 120, 2500, rng)
     return res
 
 
